@@ -87,8 +87,7 @@ func H_C15_lexemes() {
 		case 1: // comment
 			x := vRune("cm")
 			if kind == tkExpression {
-				vAssume(vAnd(x != '*', x != '/'))
-				text = []rune{'/', '*', x, '*', '/'}
+				text = []rune{'/', '*', x, '*', '/'} // any one-character body, a star or a slash included
 			} else {
 				vAssume(vAnd(x != '\n', x != '\r'))
 				text = []rune{'#', x, '\n'}
@@ -100,7 +99,13 @@ func H_C15_lexemes() {
 		case 3:
 			text = []rune{'a'}
 		case 4:
-			text = [][]rune{{'1'}, {'1', '.', '5'}}[vChoice("num", 2)]
+			if kind == tkExpression {
+				// integer, decimal and scientific spellings
+				text = [][]rune{{'1'}, {'1', '.', '5'}, {'1', 'e', '5'}, {'2', '.', '5', 'E', '-', '3'}}[vChoice("num", 4)]
+			} else {
+				// generically a sign is part of the number
+				text = [][]rune{{'1'}, {'1', '.', '5'}, {'-', '2'}}[vChoice("num", 3)]
+			}
 		case 5:
 			x := vRune("q")
 			vAssume(x != '\'')
